@@ -120,6 +120,13 @@ func (a *Alpha) Enabled(s *State) []Event {
 			}
 		}
 		for _, ed := range a.SpecEdits {
+			if strings.HasPrefix(ed, "set-label:") { // a label of the ExtendedDaemonSet object itself is added or changed
+				kv := strings.SplitN(strings.TrimPrefix(ed, "set-label:"), "=", 2)
+				if e.Labels[kv[0]] != kv[1] {
+					evs = append(evs, Event{K: "editSpec", A: nn(e), B: ed, Dev: dev})
+				}
+				continue
+			}
 			if e.Spec.Strategy.Canary == nil {
 				continue
 			}
